@@ -935,12 +935,13 @@ if want("outer"):
             ("transpose3", (2, 1, 3), lambda o: o.transpose(2, 0, 1)), ("flatten", (2, 2), lambda o: o.flatten()),
             ("rows-reversed", (3, 2), lambda o: o[::-1, ::-1])]
     nh = len(HIST)
-    for t in range(max(N // 6, 12)):
-        # every history meets "id" on the other side (both orders) and a different history
-        h1, h2 = [(t % nh, 0), (0, t % nh), (t % nh, (t * 2 + 1) % nh)][(t // nh) % 3]
+    for t in range(max(N // 4, 18)):
+        # every history meets "id" on the other side (both orders) and a different history; all 3 x 9 in 27 rounds
+        hh = (t + t // 3) % nh
+        h1, h2 = [(hh, 0), (0, hh), (hh, (hh * 2 + 1) % nh)][t % 3]
         (n1, s1, f1), (n2, s2, f2) = HIST[h1], HIST[h2]
         backend = (t // 2) % 2 == 0
-        k = [2, 3, 20][t % 3]
+        k = [20, 3, 2, 3][t % 4]             # (one block, or a few: the chunk grid itself is exercised above)
         objs = {"q": (f1(Quaternion(quat_data(s1, "nonunit"))), f2(Quaternion(quat_data(s2, "unit")))),
                 "r": (f1(mk_rot(s1)), f2(mk_rot(s2))),
                 "v": (f1(Vector3d(vec_data(s1))), f2(Vector3d(vec_data(s2)))),
@@ -953,11 +954,15 @@ if want("outer"):
                ("Rotation.outer(Vector3d)", lambda o, **kw: o["r"][0].outer(o["v"][1], **kw)),
                ("Vector3d.dot_outer", lambda o, **kw: o["v"][0].dot_outer(o["v"][1], **kw)),
                ("Orientation.angle_with_outer", lambda o, **kw: o["o"][0].angle_with_outer(o["o"][1], **kw))]
-        for nm, f in ops:
+        for oi, (nm, f) in enumerate(ops):
             set_backend(True)
             want_ = f(fr)
             set_backend(backend)
-            for tag, got in (("eager", outcome(lambda: f(objs))), ("lazy", outcome(lambda: f(objs, **lazy_kw(k))))):
+            # eager always; lazy (a dask graph each: costly) for two of the six operations per round, in turn
+            modes = [("eager", outcome(lambda: f(objs)))]
+            if (oi - t) % 3 == 0:
+                modes.append(("lazy", outcome(lambda: f(objs, **lazy_kw(k)))))
+            for tag, got in modes:
                 res, err = got
                 if err:
                     d = err
